@@ -820,6 +820,23 @@ func rC02Range(w *World, r *Report) {
 		if !bodyAppends {
 			problems = append(problems, "the loop body does not append the loop variable")
 		}
+		// the range is expanded exactly when a < b as numbers: the loop is entered under that comparison of the two
+		// converted bounds (not of their texts)
+		ordered := false
+		for _, f := range factsAt(b) {
+			if (f.Op == token.LSS || f.Op == token.GTR) && f.Y != nil {
+				x, y := resolvePhi(f.X, b), resolvePhi(f.Y, b)
+				if f.Op == token.GTR {
+					x, y = y, x
+				}
+				if converterOf(x) != nil && converterOf(y) == hi {
+					ordered = true
+				}
+			}
+		}
+		if !ordered {
+			problems = append(problems, "the expansion is not guarded by lower < upper on the converted numbers (a comparison of the texts orders 9 after 11)")
+		}
 		if cmp.Op == token.LSS {
 			// b must be appended on every path from the loop exit to the next element / the store
 			isAppendHi := func(in ssa.Instruction) bool {
